@@ -293,6 +293,12 @@ func genQueryScenario(prop string, seed uint64, tier string) (*Scenario, *qMeta)
 		{Name: "a.csv", Content: genTableA(m.NA, m.Groups, r)},
 		{Name: "b.csv", Content: genTableB(m.NB, m.NA, m.Groups, r)},
 	}
+	// a third of the scenarios keep table a in another format: the LTSV and JSON Lines
+	// loaders convert their records on several goroutines, and COMMIT writes the format back
+	if rf := Sub(seed, "q-format"); rf.Bool(0.33) && m.NA > 0 {
+		ext, content := benignTableAs(sc.Files[0].Content, rf.PickS("tsv", "ltsv", "ltsv", "jsonl", "jsonl", "json"))
+		sc.Files[0] = FileSpec{Name: "a" + ext, Content: content}
+	}
 	m.Prelude = strings.Split(udfPrelude, "\n")
 	n := r.Range(3, 8)
 	for i := 0; i < n; i++ {
